@@ -1,6 +1,35 @@
 import VivModel.Model.Artifact
 import VivModel.Lemmas.Artifact
-/-! C19 — the artifact's keys, file and contents always agree. -/
+/-! C19 — the artifact's keys, file and contents always agree.
+
+Model: `Model/Artifact.lean` (an HDF tree with path aliasing, `Keys`, `Artifact`, filter terms), a
+transliteration of `artifact.py` / `hdf.py` as they are (with the `fix:` commits for F8, F19, F20).
+
+Headline statements (everything else in this file is a lemma towards them):
+
+* `ops_K_partial`   every operation sequence – refused operations, reopens, second artifacts, operations on
+                    `metadata.keyspace` itself included – preserves the invariant `K` (keys = persisted key
+                    space = `metadata.keyspace` :: keys of the file in insertion order, no key twice,
+                    cache ⊆ file), for histories over a family of keys none of whose HDF paths is a prefix
+                    of another's (`Sep`); `K_agree` restates `K` in the property's words;
+                    `nested_write_destroys_child`, `nested_remove_destroys_child`,
+                    `nested_remove_raises_after_unlisting`, `leftover_group_refuses_json_write` (F12,
+                    recorded) show the hypothesis cannot be dropped;
+* `step_refines`, `run_refines`, `load_last_written`, `keys_loadable_iff`   refinement to the abstract
+                    key → data map: after any such history `load k` returns what the operation list says
+                    was last written under `k`, and is refused iff nothing is;
+* `accepted_iff`    the artifact accepts exactly what the property says it must accept;
+* `reopen_same_keys`  a reopened / second artifact reads back the same keys and changes nothing;
+* `rejected_unchanged`  the refusals the property names (duplicate write, remove / replace / load of a
+                    missing key, `None`, malformed key, unserialisable value, anything addressed to the
+                    bookkeeping key) change nothing at all – in EVERY state, no hypothesis;
+  `refusal_preserves_content`  in the regime EVERY refusal, whatever the value, leaves the key → data map,
+                    the set of reported keys and `K` as they were;
+  `any_refusal_unchanged_partial`  … and the whole state (file, bare groups, key order, cache) for the
+                    operations `Atomic` describes; `failed_replace_moves_key_to_end`,
+                    `refused_frame_write_leaves_parent_group` show what `Atomic` excludes and why;
+* `filter_subset`, `absent_terms_ignored`, `filter_monotone`, `filter_cols_subset`,
+  `filter_rows_are_stored`   filter terms only restrict. -/
 namespace Viv.Props.C19
 open Viv.Artifact
 
@@ -14,14 +43,15 @@ structure Sep (H : List Key) : Prop where
 
 /-- Invariant `K`: the file is the user's data nodes `us` (insertion order) followed by the key space
 node, which holds exactly the in-memory key list `"metadata.keyspace" :: keys of us`; no key twice;
-every stored key is a well-formed key of `H`; the cache only holds what the file holds. -/
+every stored key is a well-formed key of `H`; the cache only holds what the file holds (except for a
+loaded copy of the key list itself, which `load "metadata.keyspace"` caches and nothing refreshes). -/
 def K (H : List Key) (a : Art) : Prop :=
   ∃ us : List (Key × Node),
     a.file = us ++ [(ksKey, .keysNode a.keys)] ∧
     a.keys = ksKey :: us.map (·.1) ∧
     (us.map (·.1)).Nodup ∧
     (∀ e ∈ us, e.1 ∈ H ∧ wellFormed e.1 = true) ∧
-    (∀ e ∈ a.cache, e ∈ us)
+    (∀ e ∈ a.cache, e.1 ≠ ksKey → e ∈ us)
 
 theorem sep_eq {H : List Key} (hs : Sep H) {k1 k2 : Key} (h1 : k1 ∈ ksKey :: H) (h2 : k2 ∈ ksKey :: H)
     (w1 : wellFormed k1 = true) (w2 : wellFormed k2 = true) (hab : above k1 k2 = true) : k1 = k2 :=
@@ -112,7 +142,7 @@ theorem write_K {H : List Key} (hs : Sep H) {a : Art} {k : Key} (d : Option Data
             intro x hx y hy
             simp only [List.map_cons, List.map_nil, List.mem_singleton] at hy
             subst hy; intro e; exact hfresh (e ▸ hx)
-          · intro e he; rw [s2] at he; exact List.mem_append_left _ (hc e he)
+          · intro e he hne; rw [s2] at he; exact List.mem_append_left _ (hc e he hne)
       · have : hdfWrite a k d = (a, false) := by simp [hdfWrite, hw]
         simp only [this]
         exact h
@@ -144,7 +174,9 @@ theorem remove_K {H : List Key} (hs : Sep H) {a : Art} {k : Key} (hk : k ∈ H) 
   unfold remove
   split
   · exact h
-  · rename_i hin
+  split
+  · exact h
+  · rename_i hin _
     obtain ⟨us, hf, hkeys, hnd, hus, hc⟩ := h
     have hne : k ≠ ksKey := fun e => hs.ks (e ▸ hk)
     have hkin : k ∈ us.map (·.1) := by
@@ -174,9 +206,9 @@ theorem remove_K {H : List Key} (hs : Sep H) {a : Art} {k : Key} (hk : k ∈ H) 
     refine ⟨us.filter (fun e => e.1 != k), by simp only, herase, ?_, ?_, ?_⟩
     · exact (List.Sublist.map _ List.filter_sublist).nodup hnd
     · intro e he; exact hus e (List.mem_filter.mp he).1
-    · intro e he
+    · intro e he hne'
       simp only [List.mem_filter] at he ⊢
-      exact ⟨hc e he.1, he.2⟩
+      exact ⟨hc e he.1 hne', he.2⟩
 
 theorem replace_K {H : List Key} (hs : Sep H) {a : Art} {k : Key} (d : Option Data) (hk : k ∈ H) (h : K H a) :
     K H (replace a k d).1 := by
@@ -189,16 +221,26 @@ theorem replace_K {H : List Key} (hs : Sep H) {a : Art} {k : Key} (d : Option Da
       dsimp only
       split
       · exact h
-      · have hr := remove_K hs hk h
-        generalize remove a k = r at hr ⊢
-        obtain ⟨a1, o⟩ := r
-        cases o with
-        | ok => exact write_K hs (some d) hk hr
-        | data n => exact hr
-        | rejected => exact hr
+      · split
+        · exact h
+        · rename_i old _
+          have hr := remove_K hs hk h
+          generalize remove a k = r at hr ⊢
+          obtain ⟨a1, o⟩ := r
+          cases o with
+          | ok =>
+            dsimp only
+            have hw := write_K hs (some d) hk hr
+            generalize write a1 k (some d) = r2 at hw ⊢
+            obtain ⟨a2, o2⟩ := r2
+            cases o2 with
+            | ok => exact hw
+            | data n => exact write_K hs _ hk hw
+            | rejected => exact write_K hs _ hk hw
+          | data n => exact hr
+          | rejected => exact hr
 
-theorem load_K {H : List Key} (hs : Sep H) {a : Art} {k : Key} (hk : k ∈ H) (h : K H a) :
-    K H (load a k).1 := by
+theorem load_K {H : List Key} {a : Art} {k : Key} (h : K H a) : K H (load a k).1 := by
   unfold load
   split
   · exact h
@@ -208,9 +250,9 @@ theorem load_K {H : List Key} (hs : Sep H) {a : Art} {k : Key} (hk : k ∈ H) (h
       · rename_i n hn
         obtain ⟨us, hf, hkeys, hnd, hus, hc⟩ := h
         refine ⟨us, hf, hkeys, hnd, hus, ?_⟩
-        intro e he
+        intro e he hne
         rcases List.mem_append.mp he with he | he
-        · exact hc e he
+        · exact hc e he hne
         · simp only [List.mem_singleton] at he
           subst he
           unfold hdfLoad at hn
@@ -220,7 +262,7 @@ theorem load_K {H : List Key} (hs : Sep H) {a : Art} {k : Key} (hk : k ∈ H) (h
             rcases List.mem_append.mp this with h | h
             · exact h
             · simp only [List.mem_singleton, Prod.mk.injEq] at h
-              exact absurd (h.1 ▸ hk) hs.ks
+              exact absurd h.1 hne
           · cases hn
       · exact h
 
@@ -238,29 +280,63 @@ theorem K_clear {H : List Key} {a : Art} (h : K H a) : K H { a with cache := [] 
   obtain ⟨us, hf, hkeys, hnd, hus, hc⟩ := h
   exact ⟨us, hf, hkeys, hnd, hus, by simp⟩
 
-/-- one operation on keys of `H` (accepted or refused) preserves `K` -/
-theorem step_K {H : List Key} (hs : Sep H) (a : Art) (op : Op) (hop : ∀ k, op.key? = some k → k ∈ H)
-    (h : K H a) : K H (step a op).1 := by
+theorem remove_ks (a : Art) : remove a ksKey = (a, .rejected) := by
+  unfold remove
+  split
+  · rfl
+  · simp
+
+theorem replace_ks (a : Art) (d : Option Data) : replace a ksKey d = (a, .rejected) := by
+  unfold replace
+  split
+  · rfl
+  · cases d with
+    | none => rfl
+    | some d =>
+      dsimp only
+      split
+      · rfl
+      · split
+        · rfl
+        · simp [remove_ks]
+
+theorem write_ks {H : List Key} {a : Art} (d : Option Data) (h : K H a) : write a ksKey d = (a, .rejected) := by
+  obtain ⟨us, _, hkeys, _, _, _⟩ := h
+  have : a.keys.contains ksKey = true := by rw [hkeys]; simp
+  unfold write
+  rw [if_pos this]
+
+/-- one operation on a key of `H` or on the bookkeeping key (accepted or refused) preserves `K` -/
+theorem step_K {H : List Key} (hs : Sep H) (a : Art) (op : Op)
+    (hop : ∀ k, op.key? = some k → k ∈ H ∨ k = ksKey) (h : K H a) : K H (step a op).1 := by
   cases op with
-  | write k d => exact write_K hs d (hop k rfl) h
-  | load k => exact load_K hs (hop k rfl) h
-  | remove k => exact remove_K hs (hop k rfl) h
-  | replace k d => exact replace_K hs d (hop k rfl) h
+  | write k d =>
+    rcases hop k rfl with hk | rfl
+    · exact write_K hs d hk h
+    · simp only [step, write_ks d h]; exact h
+  | load k => exact load_K h
+  | remove k =>
+    rcases hop k rfl with hk | rfl
+    · exact remove_K hs hk h
+    · simp only [step, remove_ks]; exact h
+  | replace k d =>
+    rcases hop k rfl with hk | rfl
+    · exact replace_K hs d hk h
+    · simp only [step, replace_ks]; exact h
   | clearCache => exact K_clear h
   | reopen => simp only [step, open_K hs h]; exact K_clear h
   | probe => simp only [step, open_K hs h]; exact h
 
-/- Full statement (false of the code as it is, see `nested_write_destroys_child`,
-`remove_keyspace_node_breaks_reopen`):
+/- Full statement (false of the code as it is, see `nested_write_destroys_child` and the witnesses after it):
      ∀ ops a, K' a → K' (run ops a)
    where K' does not restrict the keys to a separated family. What is missing: `HDFStore.put` and
-   `remove_node(recursive=True)` act on the whole subtree below a two-part key (F12), and
-   `metadata.keyspace` is accepted as the target of `remove` / `replace`. -/
-/-- `ops_K` for every history over a family of keys none of whose HDF paths is a prefix of another's:
-every operation sequence – including refused operations, reopens and second artifacts on the same file –
-preserves `K`. -/
+   `remove_node(recursive=True)` act on the whole subtree below a two-part key, and `filenode` refuses a
+   path on which a group was left behind (F12, recorded). -/
+/-- `ops_K` for every history over a family of keys none of whose HDF paths is a prefix of another's
+(plus, freely, `metadata.keyspace` itself): every operation sequence – including refused operations,
+reopens and second artifacts on the same file – preserves `K`. -/
 theorem ops_K_partial {H : List Key} (hs : Sep H) (ops : List Op)
-    (hops : ∀ op ∈ ops, ∀ k, op.key? = some k → k ∈ H) (a : Art) (h : K H a) : K H (run ops a) := by
+    (hops : ∀ op ∈ ops, ∀ k, op.key? = some k → k ∈ H ∨ k = ksKey) (a : Art) (h : K H a) : K H (run ops a) := by
   induction ops generalizing a with
   | nil => exact h
   | cons op ops ih =>
@@ -268,17 +344,19 @@ theorem ops_K_partial {H : List Key} (hs : Sep H) (ops : List Op)
     exact ih (fun o ho => hops o (List.mem_cons_of_mem _ ho)) _ (step_K hs a op (hops op List.mem_cons_self) h)
 
 /-- the new artifact on an empty file satisfies `K` -/
-theorem init_K (H : List Key) : K H init := ⟨[], by decide, by decide, by simp, by simp, by decide⟩
+theorem init_K (H : List Key) : K H init :=
+  ⟨[], by decide, by decide, by simp, by simp, by simp [show init.cache = [] from by decide]⟩
 
 /-! ### bare groups never occupy the path of a key of `H` -/
 
 /-- no data-less group sits on the path of a key the history addresses -/
 def G (H : List Key) (a : Art) : Prop := ∀ g ∈ a.groups, g ∉ H
 
-/-- operations whose refusal is atomic in the code as it is: the value is not a pandas object the HDF
-layer refuses after it has started (`badFrame`), nor – for `replace`, which does not validate pandas
-values before removing – one it refuses at all (`zeroRow`). See `replace_unstorable_frame_loses_key`,
-`unstorable_frame_write_leaves_group`. -/
+/-- operations whose refusal leaves the *whole* state untouched in the code as it is: the value is not a
+frame `HDFStore.put` refuses after it has created groups (`badFrame`: the parent group of a three-part
+key stays), nor – for `replace`, which removes, fails and writes the old data back, moving the key to
+the end of the key list – a pandas value the HDF layer refuses at all (`zeroRow`, `badFrame`). See
+`failed_replace_moves_key_to_end`, `refused_frame_write_leaves_parent_group`. -/
 def Atomic : Op → Prop
   | .write _ (some d) => d.kind ≠ .badFrame
   | .replace _ (some d) => d.kind ≠ .badFrame ∧ d.kind ≠ .zeroRow
@@ -290,16 +368,17 @@ theorem take2_not_mem {H : List Key} (hs : Sep H) {k : Key} (hk : k ∈ H) (hw :
   exact take2_ne h3 (sep_eq hs (List.mem_cons_of_mem _ hin) (List.mem_cons_of_mem _ hk)
     (wellFormed_take2 hw h3) hw (above_take k 2))
 
-theorem write_G {H : List Key} (hs : Sep H) {a : Art} {k : Key} {d : Option Data} (hk : k ∈ H)
-    (hat : ∀ dd, d = some dd → dd.kind ≠ .badFrame) (hG : G H a) : G H (write a k d).1 := by
+theorem write_G {H : List Key} (hs : Sep H) {a : Art} {k : Key} {d : Option Data} (hk : k ∈ H ∨ k = ksKey)
+    (hG : G H a) : G H (write a k d).1 := by
   intro g hg
-  rcases write_groups hg with h | ⟨hw, h3, rfl⟩ | ⟨dd, hd, hb, _⟩
+  rcases write_groups hg with h | ⟨hw, h3, hg2⟩
   · exact hG g h
-  · exact take2_not_mem hs hk hw h3
-  · exact absurd hb (hat dd hd)
+  · rcases hk with hk | rfl
+    · exact hg2 ▸ take2_not_mem hs hk hw h3
+    · exact absurd h3 (by decide)
 
-theorem replace_G {H : List Key} (hs : Sep H) {a : Art} {k : Key} {d : Option Data} (hk : k ∈ H)
-    (hat : ∀ dd, d = some dd → dd.kind ≠ .badFrame) (hG : G H a) : G H (replace a k d).1 := by
+theorem replace_G {H : List Key} (hs : Sep H) {a : Art} {k : Key} {d : Option Data} (hk : k ∈ H ∨ k = ksKey)
+    (hG : G H a) : G H (replace a k d).1 := by
   unfold replace
   split
   · exact hG
@@ -309,13 +388,23 @@ theorem replace_G {H : List Key} (hs : Sep H) {a : Art} {k : Key} {d : Option Da
       dsimp only
       split
       · exact hG
-      · have hr : G H (remove a k).1 := fun g hg => hG g (remove_groups hg)
-        generalize remove a k = r at hr ⊢
-        obtain ⟨a1, o⟩ := r
-        cases o with
-        | ok => exact write_G hs hk hat hr
-        | data n => exact hr
-        | rejected => exact hr
+      · split
+        · exact hG
+        · have hr : G H (remove a k).1 := fun g hg => hG g (remove_groups hg)
+          generalize remove a k = r at hr ⊢
+          obtain ⟨a1, o⟩ := r
+          cases o with
+          | ok =>
+            dsimp only
+            have hw : G H (write a1 k (some d)).1 := write_G hs hk hr
+            generalize write a1 k (some d) = r2 at hw ⊢
+            obtain ⟨a2, o2⟩ := r2
+            cases o2 with
+            | ok => exact hw
+            | data n => exact write_G hs hk hw
+            | rejected => exact write_G hs hk hw
+          | data n => exact hr
+          | rejected => exact hr
 
 theorem load_groups (a : Art) (k : Key) : (load a k).1.groups = a.groups := by
   unfold load
@@ -325,17 +414,13 @@ theorem load_groups (a : Art) (k : Key) : (load a k).1.groups = a.groups := by
     · rfl
     · split <;> rfl
 
-theorem step_G {H : List Key} (hs : Sep H) (a : Art) (op : Op) (hop : ∀ k, op.key? = some k → k ∈ H)
-    (hat : Atomic op) (hG : G H a) : G H (step a op).1 := by
+theorem step_G {H : List Key} (hs : Sep H) (a : Art) (op : Op)
+    (hop : ∀ k, op.key? = some k → k ∈ H ∨ k = ksKey) (hG : G H a) : G H (step a op).1 := by
   cases op with
-  | write k d =>
-    refine write_G hs (hop k rfl) ?_ hG
-    intro dd hd; subst hd; exact hat
+  | write k d => exact write_G hs (hop k rfl) hG
   | load k => intro g hg; rw [step, load_groups] at hg; exact hG g hg
   | remove k => exact fun g hg => hG g (remove_groups hg)
-  | replace k d =>
-    refine replace_G hs (hop k rfl) ?_ hG
-    intro dd hd; subst hd; exact hat.1
+  | replace k d => exact replace_G hs (hop k rfl) hG
   | clearCache => exact hG
   | reopen =>
     simp only [step]
@@ -347,5 +432,837 @@ theorem step_G {H : List Key} (hs : Sep H) (a : Art) (op : Op) (hop : ∀ k, op.
     cases h : openArtifact a with
     | none => exact hG
     | some a' => exact fun g hg => hG g (openArtifact_groups h hg)
+
+/-! ### what each operation does, exactly, in the regime of the property -/
+
+/-- the key → data map a file denotes (the bookkeeping node is not data) -/
+def absOf (a : Art) : Spec := fun k => if k = ksKey then none else lookup a.file k
+
+theorem abs_of_us {a : Art} {us : List (Key × Node)} {n : Node} (hf : a.file = us ++ [(ksKey, n)]) (q : Key) :
+    absOf a q = if q = ksKey then none else lookup us q := by
+  unfold absOf
+  by_cases hq : q = ksKey
+  · simp [hq]
+  · have : ¬ ksKey = q := fun e => hq e.symm
+    simp [hq, hf, this, lookup]
+
+theorem lookup_us_none {us : List (Key × Node)} {k : Key} (hfresh : k ∉ us.map (·.1)) :
+    lookup us k = none := by
+  cases h : lookup us k with
+  | none => rfl
+  | some n => exact absurd (List.mem_map.mpr ⟨(k, n), lookup_some_mem h, rfl⟩) hfresh
+
+/-- `hdf.write` accepts every storable value under a fresh well-formed key of a separated family -/
+theorem hdfWrite_accepts {H : List Key} (hs : Sep H) {a : Art} {k : Key} {d : Data} {nd : Node}
+    {us : List (Key × Node)} (hk : k ∈ H) (hw : wellFormed k = true)
+    (hf : a.file = us ++ [(ksKey, .keysNode a.keys)]) (hus : ∀ e ∈ us, e.1 ∈ H ∧ wellFormed e.1 = true)
+    (hfresh : k ∉ us.map (·.1)) (hG : G H a) (hn : nodeOf d = some nd) : (hdfWrite a k d).2 = true := by
+  have hne : k ≠ ksKey := fun e => hs.ks (e ▸ hk)
+  -- the parent of a three-part key is not a leaf
+  have hleaf : (k.length == 3 && isLeaf a (k.take 2)) = false := by
+    by_cases h3 : k.length = 3
+    · have : lookup a.file (k.take 2) = none := by
+        apply lookup_eq_none_iff.mpr
+        intro e he heq
+        rw [hf] at he
+        have hmem : e.1 ∈ ksKey :: H ∧ wellFormed e.1 = true := by
+          rcases List.mem_append.mp he with he | he
+          · exact ⟨List.mem_cons_of_mem _ (hus e he).1, (hus e he).2⟩
+          · simp only [List.mem_singleton] at he; subst he; exact ⟨List.mem_cons_self, wellFormed_ks⟩
+        have := sep_eq hs hmem.1 (List.mem_cons_of_mem _ hk) hmem.2 hw (heq ▸ above_take k 2)
+        exact take2_ne h3 (heq ▸ this)
+      simp [isLeaf, this]
+    · have : (k.length == 3) = false := by simpa using h3
+      simp [this]
+  have hocc : occupied a k = false := by
+    have h1 : lookup a.file k = none := by
+      rw [hf, lookup_append, lookup_us_none hfresh, lookup_cons]
+      have : ¬ ksKey = k := fun e => hne e.symm
+      simp [this, lookup]
+    have h2 : a.groups.contains k = false := by
+      apply Bool.eq_false_iff.mpr
+      intro h; exact hG k (List.contains_iff_mem.mp h) hk
+    have h3 : k ∉ a.groups := fun h => hG k h hk
+    simp [occupied, h1, h3]
+  obtain ⟨kind, id⟩ := d
+  cases kind with
+  | json => simp [hdfWrite, hw, hdfWriteJson, hleaf, hocc]
+  | keyList ks => simp [hdfWrite, hw, hdfWriteJson, hleaf, hocc]
+  | table => simp [hdfWrite, hw, hdfPut, hleaf]
+  | unserJson => simp [nodeOf] at hn
+  | zeroRow => simp [nodeOf] at hn
+  | badFrame => simp [nodeOf] at hn
+
+/-- an accepted `hdf.write` is followed by the rewrite of the key space: the write as a whole succeeds -/
+theorem write_ok {H : List Key} (hs : Sep H) {a : Art} {k : Key} {d : Data} {us : List (Key × Node)}
+    (hk : k ∈ H) (hw : wellFormed k = true) (hf : a.file = us ++ [(ksKey, .keysNode a.keys)])
+    (hus : ∀ e ∈ us, e.1 ∈ H ∧ wellFormed e.1 = true) (hfresh : k ∉ us.map (·.1))
+    (hnot : ¬ a.keys.contains k = true) (hres : (hdfWrite a k d).2 = true) :
+    ∃ nd, nodeOf d = some nd ∧ (write a k (some d)).2 = .ok ∧
+      (write a k (some d)).1.file = us ++ [(k, nd)] ++ [(ksKey, .keysNode (a.keys ++ [k]))] := by
+  have hfree : ∀ e ∈ a.file, above k e.1 = false := by
+    rw [hf]; exact free_of_fresh hs hk hw hus hfresh
+  obtain ⟨s1, _, s3, _⟩ := hdfWrite_spec a k d hfree
+  simp only [write, hnot]
+  generalize hdfWrite a k d = r at s1 s3 hres ⊢
+  obtain ⟨a1, b⟩ := r
+  simp only at hres
+  subst hres
+  obtain ⟨_, nd, hnd', hfile⟩ := s3 rfl
+  simp only at s1 hfile ⊢
+  have hus' : ∀ e ∈ us ++ [(k, nd)], e.1 ∈ H ∧ wellFormed e.1 = true := by
+    intro e he
+    rcases List.mem_append.mp he with he | he
+    · exact hus e he
+    · simp only [List.mem_singleton] at he; subst he; exact ⟨hk, hw⟩
+  have hocc : (lookup ({ a1 with keys := a1.keys ++ [k] } : Art).file ksKey).isSome = true := by
+    simp only [hfile, hf, lookup_append, lookup_ks hs _ hus]
+    simp
+  simp only [keysAppend]
+  rw [keysRewrite_ok _ hocc]
+  refine ⟨nd, hnd', rfl, ?_⟩
+  simp only
+  rw [hfile, hf, List.filter_append, filter_ks hs _ hus, s1]
+  have : above ksKey k = false := ks_free hs hus' (k, nd) (by simp)
+  simp [this]
+
+theorem hdfWrite_false_unchanged {a : Art} {k : Key} {d : Data} (hb : d.kind ≠ .badFrame)
+    (h : (hdfWrite a k d).2 = false) : (hdfWrite a k d).1 = a := by
+  obtain ⟨kind, id⟩ := d
+  unfold hdfWrite at h ⊢
+  split
+  · rfl
+  · rename_i hw
+    simp only [hw] at h
+    cases kind with
+    | json =>
+      cases hj : hdfWriteJson a k (.blob id) with
+      | none => rfl
+      | some a' => simp [hj] at h
+    | keyList ks =>
+      dsimp only at h ⊢
+      cases hj : hdfWriteJson a k (.keysNode ks) with
+      | none => rfl
+      | some a' => simp [hj] at h
+    | unserJson => rfl
+    | zeroRow => rfl
+    | table =>
+      simp only [hdfPut] at h ⊢
+      split
+      · rfl
+      · rename_i hc; simp [hc] at h
+    | badFrame => exact absurd rfl hb
+
+theorem remove_ok {H : List Key} (hs : Sep H) {a : Art} {k : Key} {us : List (Key × Node)} (hk : k ∈ H)
+    (hf : a.file = us ++ [(ksKey, .keysNode a.keys)]) (hkeys : a.keys = ksKey :: us.map (·.1))
+    (hus : ∀ e ∈ us, e.1 ∈ H ∧ wellFormed e.1 = true) (hkin : k ∈ us.map (·.1)) :
+    (remove a k).2 = .ok ∧ (remove a k).1.keys = a.keys.erase k ∧
+      (remove a k).1.file = us.filter (fun e => e.1 != k) ++ [(ksKey, .keysNode (a.keys.erase k))] := by
+  have hin : ¬ (!a.keys.contains k) = true := by
+    have : k ∈ a.keys := by rw [hkeys]; exact List.mem_cons_of_mem _ hkin
+    simpa using this
+  obtain ⟨e0, he0, hek0⟩ := List.mem_map.mp hkin
+  have hw : wellFormed k = true := hek0 ▸ (hus e0 he0).2
+  have hocc : (lookup ({ a with keys := a.keys.erase k } : Art).file ksKey).isSome = true := by
+    simp only [hf, lookup_ks hs _ hus]; simp
+  have hocc2 : (lookup (us ++ [(ksKey, Node.keysNode (a.keys.erase k))]) k).isSome = true := by
+    rw [lookup_isSome_iff]; simp only [List.map_append, List.mem_append]; exact Or.inl hkin
+  have hne : (k == ksKey) = false := by
+    have : k ≠ ksKey := fun e => hs.ks (e ▸ hk)
+    simpa using this
+  simp only [remove, hin, hne, keysRemove]
+  rw [keysRewrite_ok _ hocc]
+  dsimp only
+  rw [hf, filter_ks hs _ hus]
+  simp only [hdfRemove, hw, occupied, hocc2, Bool.true_or, Bool.and_self, if_true, rmTree]
+  rw [filter_stored hs _ hus hk hw]
+  exact ⟨rfl, rfl, rfl⟩
+
+/-- `k` is reported ⇔ the file binds it -/
+theorem abs_isSome_iff {H : List Key} (hs : Sep H) {a : Art} {k : Key} (hk : k ∈ H) (h : K H a) :
+    (absOf a k).isSome = true ↔ k ∈ a.keys := by
+  obtain ⟨us, hf, hkeys, _, _, _⟩ := h
+  have hne : k ≠ ksKey := fun e => hs.ks (e ▸ hk)
+  rw [abs_of_us hf, if_neg hne, lookup_isSome_iff, hkeys]
+  simp [hne]
+
+/-- which operations the property says must be accepted, given the key → data map -/
+def specAccepts (m : Spec) : Op → Bool
+  | .write k (some d) => (m k).isNone && wellFormed k && (nodeOf d).isSome
+  | .write _ none => false
+  | .remove k => (m k).isSome
+  | .replace k (some d) => (m k).isSome && (nodeOf d).isSome
+  | .replace _ none => false
+  | .load k => (m k).isSome
+  | _ => true
+
+theorem absOf_congr {a b : Art} (h : a.file = b.file) : absOf a = absOf b := by
+  funext q; simp [absOf, h]
+
+theorem nodeOf_dataOf (n : Node) : nodeOf (dataOf n) = some n := by
+  cases n <;> rfl
+
+theorem write_regime {H : List Key} (hs : Sep H) {a : Art} {k : Key} (d : Option Data) (hk : k ∈ H)
+    (hK : K H a) (hG : G H a) :
+    (specAccepts (absOf a) (.write k d) = true →
+      (write a k d).2 = .ok ∧ absOf (write a k d).1 = specStep (absOf a) (.write k d)) ∧
+    (specAccepts (absOf a) (.write k d) = false →
+      (write a k d).2 = .rejected ∧ (write a k d).1.file = a.file ∧ (write a k d).1.keys = a.keys ∧
+        (write a k d).1.cache = a.cache ∧
+        ((∀ dd, d = some dd → dd.kind ≠ .badFrame) → (write a k d).1 = a)) := by
+  have hiff := abs_isSome_iff hs hk hK
+  have hne : k ≠ ksKey := fun e => hs.ks (e ▸ hk)
+  obtain ⟨us, hf, hkeys, hnd, hus, hc⟩ := hK
+  constructor
+  · intro hacc
+    cases d with
+    | none => simp [specAccepts] at hacc
+    | some dd =>
+      simp only [specAccepts, Bool.and_eq_true, Option.isNone_iff_eq_none, Option.isSome_iff_exists] at hacc
+      obtain ⟨⟨hnone, hw⟩, nd, hnd'⟩ := hacc
+      have hnotin : k ∉ a.keys := by
+        intro h; have := hiff.mpr h; simp [hnone] at this
+      have hnot : ¬ a.keys.contains k = true := by simpa using hnotin
+      have hfresh : k ∉ us.map (·.1) := by
+        intro hm; apply hnotin; rw [hkeys]; exact List.mem_cons_of_mem _ hm
+      have hres := hdfWrite_accepts hs hk hw hf hus hfresh hG hnd'
+      obtain ⟨nd2, hnd2, hok, hfile⟩ := write_ok hs hk hw hf hus hfresh hnot hres
+      rw [hnd'] at hnd2; cases hnd2
+      refine ⟨hok, ?_⟩
+      funext q
+      rw [abs_of_us hfile]
+      simp only [specStep, hnone, Option.isNone_none, hw, Bool.and_self, if_true, hnd', Spec.set]
+      rw [abs_of_us hf]
+      by_cases hq : q = ksKey
+      · simp [hq]
+        intro e; exact absurd e.symm hne
+      · by_cases hqk : q = k
+        · subst hqk
+          simp [hq, lookup_append, lookup_us_none hfresh, lookup_cons]
+        · have : ¬ k = q := fun e => hqk e.symm
+          simp [hq, hqk, this, lookup]
+  · intro hrej
+    unfold write
+    split
+    · exact ⟨rfl, rfl, rfl, rfl, fun _ => rfl⟩
+    · rename_i hnot
+      cases d with
+      | none => exact ⟨rfl, rfl, rfl, rfl, fun _ => rfl⟩
+      | some dd =>
+        dsimp only
+        have hnotin : k ∉ a.keys := by simpa using hnot
+        have hnone : absOf a k = none := by
+          cases h : absOf a k with
+          | none => rfl
+          | some n => exact absurd (hiff.mp (by simp [h])) hnotin
+        simp only [specAccepts, hnone, Option.isNone_none, Bool.true_and, Bool.and_eq_false_iff] at hrej
+        by_cases hw : wellFormed k = true
+        · have hno : nodeOf dd = none := by
+            rcases hrej with hrej | hrej
+            · simp [hw] at hrej
+            · cases h : nodeOf dd with
+              | none => rfl
+              | some n => simp [h] at hrej
+          have hfresh : k ∉ us.map (·.1) := by
+            intro hm; apply hnotin; rw [hkeys]; exact List.mem_cons_of_mem _ hm
+          have hfree : ∀ e ∈ a.file, above k e.1 = false := by
+            rw [hf]; exact free_of_fresh hs hk hw hus hfresh
+          obtain ⟨s1, s2, s3, s4⟩ := hdfWrite_spec a k dd hfree
+          have hb : (hdfWrite a k dd).2 = false := by
+            cases hb : (hdfWrite a k dd).2 with
+            | false => rfl
+            | true =>
+              obtain ⟨_, nd, hnd', _⟩ := s3 hb
+              rw [hno] at hnd'; cases hnd'
+          have hun := @hdfWrite_false_unchanged a k dd
+          generalize hdfWrite a k dd = r at s1 s2 s4 hb hun ⊢
+          obtain ⟨a1, b⟩ := r
+          simp only at hb
+          subst hb
+          exact ⟨rfl, s4 rfl, s1, s2, fun hat => hun (hat dd rfl) rfl⟩
+        · have : hdfWrite a k dd = (a, false) := by simp [hdfWrite, hw]
+          simp [this]
+
+theorem remove_regime {H : List Key} (hs : Sep H) {a : Art} {k : Key} (hk : k ∈ H) (hK : K H a) :
+    (specAccepts (absOf a) (.remove k) = true →
+      (remove a k).2 = .ok ∧ absOf (remove a k).1 = specStep (absOf a) (.remove k)) ∧
+    (specAccepts (absOf a) (.remove k) = false → remove a k = (a, .rejected)) := by
+  have hiff := abs_isSome_iff hs hk hK
+  have hne : k ≠ ksKey := fun e => hs.ks (e ▸ hk)
+  obtain ⟨us, hf, hkeys, hnd, hus, hc⟩ := hK
+  constructor
+  · intro hacc
+    simp only [specAccepts] at hacc
+    have hin := hiff.mp hacc
+    have hkin : k ∈ us.map (·.1) := by
+      rw [hkeys] at hin
+      rcases List.mem_cons.mp hin with h | h
+      · exact absurd h hne
+      · exact h
+    obtain ⟨hok, _, hfile⟩ := remove_ok hs hk hf hkeys hus hkin
+    refine ⟨hok, ?_⟩
+    funext q
+    rw [abs_of_us hfile]
+    simp only [specStep, hacc, if_true, Spec.set]
+    rw [abs_of_us hf, lookup_filter us (fun x => x != k) q]
+    by_cases hq : q = ksKey
+    · have : ¬ q = k := fun e => hne (e ▸ hq)
+      simp [hq]
+    · by_cases hqk : q = k
+      · simp [hqk]
+      · simp [hq, hqk]
+  · intro hrej
+    simp only [specAccepts] at hrej
+    have hnot : k ∉ a.keys := fun h => by simp [hiff.mpr h] at hrej
+    have : (!a.keys.contains k) = true := by simpa using hnot
+    unfold remove
+    rw [if_pos this]
+
+theorem load_regime {H : List Key} (hs : Sep H) {a : Art} {k : Key} (hk : k ∈ H) (hK : K H a) :
+    (load a k).2 = (match absOf a k with | some n => .data n | none => .rejected) ∧
+      (load a k).1.file = a.file ∧ (load a k).1.keys = a.keys ∧ (load a k).1.groups = a.groups := by
+  have hiff := abs_isSome_iff hs hk hK
+  have hne : k ≠ ksKey := fun e => hs.ks (e ▸ hk)
+  obtain ⟨us, hf, hkeys, hnd, hus, hc⟩ := hK
+  have habs : absOf a k = lookup us k := by rw [abs_of_us hf, if_neg hne]
+  unfold load
+  split
+  · rename_i hnot
+    have hnotin : k ∉ a.keys := by simpa using hnot
+    have : absOf a k = none := by
+      cases h : absOf a k with
+      | none => rfl
+      | some n => exact absurd (hiff.mp (by simp [h])) hnotin
+    simp [this]
+  · rename_i hin
+    have hin' : k ∈ a.keys := by simpa using hin
+    obtain ⟨n, hn⟩ := Option.isSome_iff_exists.mp (hiff.mpr hin')
+    have hlu : lookup us k = some n := habs ▸ hn
+    have hw : wellFormed k = true := (hus _ (lookup_some_mem hlu)).2
+    split
+    · rename_i n' hn'
+      have := lookup_of_mem_nodup hnd (hc _ (lookup_some_mem hn') hne)
+      rw [hlu] at this; cases this
+      simp [hn]
+    · have hfl : hdfLoad a k = some n := by
+        have : ¬ ksKey = k := fun e => hne e.symm
+        simp [hdfLoad, hw, hf, lookup_append, hlu]
+      simp [hfl, hn]
+
+theorem replace_regime {H : List Key} (hs : Sep H) {a : Art} {k : Key} (d : Option Data) (hk : k ∈ H)
+    (hK : K H a) (hG : G H a) :
+    (specAccepts (absOf a) (.replace k d) = true →
+      (replace a k d).2 = .ok ∧ absOf (replace a k d).1 = specStep (absOf a) (.replace k d)) ∧
+    (specAccepts (absOf a) (.replace k d) = false →
+      (replace a k d).2 = .rejected ∧ absOf (replace a k d).1 = absOf a ∧
+        ((∀ dd, d = some dd → dd.kind ≠ .badFrame ∧ dd.kind ≠ .zeroRow) → (replace a k d).1 = a)) := by
+  have hiff := abs_isSome_iff hs hk hK
+  have hne : k ≠ ksKey := fun e => hs.ks (e ▸ hk)
+  -- what holds whenever the key is reported: it is stored, removing it works, and it can be written again
+  have prelude : k ∈ a.keys → ∃ old, absOf a k = some old ∧ hdfLoad a k = some old ∧ wellFormed k = true ∧
+      (remove a k).2 = .ok ∧ absOf (remove a k).1 = (absOf a).set k none := by
+    intro hin
+    have hsome := hiff.mpr hin
+    obtain ⟨old, hold⟩ := Option.isSome_iff_exists.mp hsome
+    have hw : wellFormed k = true := by
+      obtain ⟨us, hf, hkeys, _, hus, _⟩ := hK
+      rw [hkeys] at hin
+      rcases List.mem_cons.mp hin with h | h
+      · exact absurd h hne
+      · obtain ⟨e, he, hek⟩ := List.mem_map.mp h
+        exact hek ▸ (hus e he).2
+    obtain ⟨hok, habs⟩ := (remove_regime hs hk hK).1 (by simpa [specAccepts] using hsome)
+    refine ⟨old, hold, ?_, hw, hok, ?_⟩
+    · have : absOf a k = lookup a.file k := by simp [absOf, hne]
+      simp [hdfLoad, hw, ← this, hold]
+    · rw [habs]; simp [specStep, hsome]
+  constructor
+  · intro hacc
+    cases d with
+    | none => simp [specAccepts] at hacc
+    | some dd =>
+      simp only [specAccepts, Bool.and_eq_true] at hacc
+      obtain ⟨hsome, hnode⟩ := hacc
+      obtain ⟨nd, hnd'⟩ := Option.isSome_iff_exists.mp hnode
+      have hin : k ∈ a.keys := hiff.mp hsome
+      obtain ⟨old, hold, hload, hw, hok, habs⟩ := prelude hin
+      have hunser : (dd.kind == Kind.unserJson) = false := by
+        obtain ⟨kind, id⟩ := dd
+        cases kind <;> simp [nodeOf] at hnd' ⊢
+      have hK1 := remove_K hs hk hK
+      have hG1 : G H (remove a k).1 := fun g hg => hG g (remove_groups hg)
+      have hnone1 : absOf (remove a k).1 k = none := by rw [habs]; simp [Spec.set]
+      have hacc1 : specAccepts (absOf (remove a k).1) (.write k (some dd)) = true := by
+        simp [specAccepts, hnone1, hw, hnode]
+      obtain ⟨hok2, habs2⟩ := (write_regime hs (some dd) hk hK1 hG1).1 hacc1
+      have hcont : a.keys.contains k = true := List.contains_iff_mem.mpr hin
+      simp only [replace, hcont, Bool.not_true, Bool.false_eq_true, if_false, hunser, hload]
+      generalize remove a k = r at hok habs hok2 habs2 hnone1 ⊢
+      obtain ⟨a1, o⟩ := r
+      simp only at hok
+      subst hok
+      simp only at habs habs2 hnone1 hok2 ⊢
+      generalize write a1 k (some dd) = r2 at hok2 habs2 ⊢
+      obtain ⟨a2, o2⟩ := r2
+      simp only at hok2
+      subst hok2
+      refine ⟨rfl, ?_⟩
+      simp only at habs2 ⊢
+      rw [habs2]
+      funext q
+      simp only [specStep, hnone1, Option.isNone_none, hw, Bool.and_self, if_true, hnd', hsome]
+      rw [habs]
+      simp only [Spec.set]
+      by_cases hq : q = k <;> simp [hq]
+  · intro hrej
+    unfold replace
+    split
+    · exact ⟨rfl, rfl, fun _ => rfl⟩
+    · rename_i hin
+      cases d with
+      | none => exact ⟨rfl, rfl, fun _ => rfl⟩
+      | some dd =>
+        dsimp only
+        split
+        · exact ⟨rfl, rfl, fun _ => rfl⟩
+        · rename_i hunser
+          have hin' : k ∈ a.keys := by simpa using hin
+          obtain ⟨old, hold, hload, hw, hok, habs⟩ := prelude hin'
+          have hsome : (absOf a k).isSome = true := by simp [hold]
+          simp only [specAccepts, hsome, Bool.true_and] at hrej
+          have hK1 := remove_K hs hk hK
+          have hG1 : G H (remove a k).1 := fun g hg => hG g (remove_groups hg)
+          have hnone1 : absOf (remove a k).1 k = none := by rw [habs]; simp [Spec.set]
+          -- the write of the new value is refused and leaves the file as `remove` left it
+          have hrej1 : specAccepts (absOf (remove a k).1) (.write k (some dd)) = false := by
+            simp [specAccepts, hrej]
+          obtain ⟨hr2, hfile2, _, _, _⟩ := (write_regime hs (some dd) hk hK1 hG1).2 hrej1
+          have hK2 := write_K hs (some dd) hk hK1
+          have hG2 : G H (write (remove a k).1 k (some dd)).1 := write_G hs (Or.inl hk) hG1
+          have habs2 : absOf (write (remove a k).1 k (some dd)).1 = absOf (remove a k).1 := absOf_congr hfile2
+          -- the old data are written back
+          have hacc3 : specAccepts (absOf (write (remove a k).1 k (some dd)).1) (.write k (some (dataOf old))) = true := by
+            simp [specAccepts, habs2, hnone1, hw, nodeOf_dataOf]
+          obtain ⟨_, habs3⟩ := (write_regime hs (some (dataOf old)) hk hK2 hG2).1 hacc3
+          simp only [hload]
+          generalize remove a k = r at hok habs hr2 habs2 habs3 hnone1 ⊢
+          obtain ⟨a1, o⟩ := r
+          simp only at hok
+          subst hok
+          simp only at habs hr2 habs2 habs3 hnone1 ⊢
+          generalize write a1 k (some dd) = r2 at hr2 habs2 habs3 ⊢
+          obtain ⟨a2, o2⟩ := r2
+          simp only at hr2
+          subst hr2
+          simp only at habs2 habs3 ⊢
+          refine ⟨trivial, ?_, ?_⟩
+          · rw [habs3, habs2]
+            funext q
+            simp only [specStep, hnone1, Option.isNone_none, hw, Bool.and_self, if_true, nodeOf_dataOf]
+            rw [habs]
+            simp only [Spec.set]
+            by_cases hq : q = k
+            · simp [hq, hold]
+            · simp [hq]
+          · intro hat
+            obtain ⟨hb, hz⟩ := hat dd rfl
+            obtain ⟨kind, id⟩ := dd
+            cases kind with
+            | json => simp [nodeOf] at hrej
+            | table => simp [nodeOf] at hrej
+            | keyList ks => simp [nodeOf] at hrej
+            | unserJson => simp at hunser
+            | zeroRow => exact absurd rfl hz
+            | badFrame => exact absurd rfl hb
+
+/-! ### the property, for every history in the regime -/
+
+theorem specStep_of_not_accepts (m : Spec) (op : Op) (h : specAccepts m op = false) : specStep m op = m := by
+  cases op with
+  | write k d =>
+    cases d with
+    | none => rfl
+    | some d =>
+      simp only [specAccepts, Bool.and_eq_false_iff] at h
+      simp only [specStep]
+      split
+      · rename_i hc
+        simp only [Bool.and_eq_true] at hc
+        rcases h with (h | h) | h
+        · simp [h] at hc
+        · simp [h] at hc
+        · cases hn : nodeOf d with
+          | none => rfl
+          | some n => simp [hn] at h
+      · rfl
+  | remove k => simp only [specAccepts] at h; simp [specStep, h]
+  | replace k d =>
+    cases d with
+    | none => rfl
+    | some d =>
+      simp only [specAccepts, Bool.and_eq_false_iff] at h
+      simp only [specStep]
+      split
+      · rename_i hc
+        rcases h with h | h
+        · simp [h] at hc
+        · cases hn : nodeOf d with
+          | none => rfl
+          | some n => simp [hn] at h
+      · rfl
+  | load k => rfl
+  | clearCache => rfl
+  | reopen => rfl
+  | probe => rfl
+
+/-- **Refinement.** In the regime, every operation changes the key → data map of the file exactly as the
+abstract specification says (bind on an accepted write, unbind on an accepted remove, rebind on an
+accepted replace, nothing otherwise – whatever the value that was refused). -/
+theorem step_refines {H : List Key} (hs : Sep H) (a : Art) (op : Op) (hop : ∀ k, op.key? = some k → k ∈ H)
+    (hK : K H a) (hG : G H a) : absOf (step a op).1 = specStep (absOf a) op := by
+  cases op with
+  | write k d =>
+    have hr := write_regime hs d (hop k rfl) hK hG
+    cases hacc : specAccepts (absOf a) (.write k d) with
+    | true => exact (hr.1 hacc).2
+    | false => rw [specStep_of_not_accepts _ _ hacc]; exact absOf_congr (hr.2 hacc).2.1
+  | remove k =>
+    have hr := remove_regime hs (hop k rfl) hK
+    cases hacc : specAccepts (absOf a) (.remove k) with
+    | true => exact (hr.1 hacc).2
+    | false => rw [step, hr.2 hacc, specStep_of_not_accepts _ _ hacc]
+  | replace k d =>
+    have hr := replace_regime hs d (hop k rfl) hK hG
+    cases hacc : specAccepts (absOf a) (.replace k d) with
+    | true => exact (hr.1 hacc).2
+    | false => rw [specStep_of_not_accepts _ _ hacc]; exact (hr.2 hacc).2.1
+  | load k => exact absOf_congr (load_regime hs (hop k rfl) hK).2.1
+  | clearCache => rfl
+  | reopen => simp only [step, open_K hs hK]; rfl
+  | probe => simp only [step, open_K hs hK]; rfl
+
+/-- In the regime the artifact accepts exactly what the property says it must accept: a write of a
+fresh well-formed key with storable data, a remove / replace / load of a bound key (replace: with
+storable data). Everything else – duplicate write, remove / replace / load of a missing key, `None`,
+malformed key, unserialisable value (JSON or pandas) – is refused. -/
+theorem accepted_iff {H : List Key} (hs : Sep H) (a : Art) (op : Op) (hop : ∀ k, op.key? = some k → k ∈ H)
+    (hK : K H a) (hG : G H a) :
+    (step a op).2 ≠ .rejected ↔ specAccepts (absOf a) op = true := by
+  cases op with
+  | write k d =>
+    have hr := write_regime hs d (hop k rfl) hK hG
+    cases hacc : specAccepts (absOf a) (.write k d) with
+    | true => simp [step, (hr.1 hacc).1]
+    | false => simp [step, (hr.2 hacc).1]
+  | remove k =>
+    have hr := remove_regime hs (hop k rfl) hK
+    cases hacc : specAccepts (absOf a) (.remove k) with
+    | true => simp [step, (hr.1 hacc).1]
+    | false => simp [step, hr.2 hacc]
+  | replace k d =>
+    have hr := replace_regime hs d (hop k rfl) hK hG
+    cases hacc : specAccepts (absOf a) (.replace k d) with
+    | true => simp [step, (hr.1 hacc).1]
+    | false => simp [step, (hr.2 hacc).1]
+  | load k =>
+    have hr := (load_regime hs (hop k rfl) hK).1
+    simp only [step, hr, specAccepts]
+    cases absOf a k <;> simp
+  | clearCache => simp [step, specAccepts]
+  | reopen => simp [step, open_K hs hK, specAccepts]
+  | probe => simp [step, open_K hs hK, specAccepts]
+
+theorem load_rejected_unchanged (a : Art) (k : Key) (h : (load a k).2 = .rejected) : (load a k).1 = a := by
+  unfold load at h ⊢
+  split
+  · rfl
+  · split
+    · rfl
+    · split
+      · rename_i n hn; simp [hn] at h
+        split at h <;> simp_all
+      · rfl
+
+/-- **Refused operations leave the artifact's content as it was**, whatever was refused and why: the
+key → data map of the file, the set of reported keys, and the invariant `K` (so also: what a freshly
+opened artifact reports, and what every key loads). -/
+theorem refusal_preserves_content {H : List Key} (hs : Sep H) (a : Art) (op : Op)
+    (hop : ∀ k, op.key? = some k → k ∈ H) (hK : K H a) (hG : G H a) (h : (step a op).2 = .rejected) :
+    absOf (step a op).1 = absOf a ∧ (∀ k ∈ H, k ∈ (step a op).1.keys ↔ k ∈ a.keys) ∧ K H (step a op).1 := by
+  have hK' := step_K hs a op (fun k hk => Or.inl (hop k hk)) hK
+  have hacc : specAccepts (absOf a) op = false := by
+    cases hc : specAccepts (absOf a) op with
+    | false => rfl
+    | true => exact absurd h ((accepted_iff hs a op hop hK hG).mpr hc)
+  have habs : absOf (step a op).1 = absOf a := by
+    rw [step_refines hs a op hop hK hG, specStep_of_not_accepts _ _ hacc]
+  refine ⟨habs, ?_, hK'⟩
+  intro k hk
+  rw [← abs_isSome_iff hs hk hK', ← abs_isSome_iff hs hk hK, habs]
+
+/- Full statement (false of the code as it is, see `failed_replace_moves_key_to_end`,
+`refused_frame_write_leaves_parent_group`, `nested_remove_raises_after_unlisting`):
+     ∀ a op, (step a op).2 = .rejected → (step a op).1 = a.
+   What is missing: a `replace` whose new value the HDF layer refuses has already removed the key and writes
+   the old data back, so the key moves to the end of the key list (the content is the same,
+   `refusal_preserves_content`); a failing `HDFStore.put` under a three-part key leaves the parent group it
+   created; with nested keys `remove` can raise after the key list was rewritten (F12). -/
+/-- **Refused operations leave artifact and file exactly as they were** – the whole state: file, bare
+groups, key list in order, cache – in the regime, for the operations `Atomic` describes. -/
+theorem any_refusal_unchanged_partial {H : List Key} (hs : Sep H) (a : Art) (op : Op)
+    (hop : ∀ k, op.key? = some k → k ∈ H) (hat : Atomic op) (hK : K H a) (hG : G H a)
+    (h : (step a op).2 = .rejected) : (step a op).1 = a := by
+  cases op with
+  | write k d =>
+    have hr := write_regime hs d (hop k rfl) hK hG
+    cases hacc : specAccepts (absOf a) (.write k d) with
+    | true => simp [step, (hr.1 hacc).1] at h
+    | false => exact (hr.2 hacc).2.2.2.2 (by intro dd hd; subst hd; exact hat)
+  | remove k =>
+    have hr := remove_regime hs (hop k rfl) hK
+    cases hacc : specAccepts (absOf a) (.remove k) with
+    | true => simp [step, (hr.1 hacc).1] at h
+    | false => simp [step, hr.2 hacc]
+  | replace k d =>
+    have hr := replace_regime hs d (hop k rfl) hK hG
+    cases hacc : specAccepts (absOf a) (.replace k d) with
+    | true => simp [step, (hr.1 hacc).1] at h
+    | false => exact (hr.2 hacc).2.2 (by intro dd hd; subst hd; exact hat)
+  | load k => exact load_rejected_unchanged a k h
+  | clearCache => simp [step] at h
+  | reopen => simp [step, open_K hs hK] at h
+  | probe => simp [step, open_K hs hK] at h
+
+/-- every history in the regime refines the fold of the abstract specification -/
+theorem run_refines {H : List Key} (hs : Sep H) (ops : List Op)
+    (hops : ∀ op ∈ ops, ∀ k, op.key? = some k → k ∈ H) (a : Art) (hK : K H a) (hG : G H a) :
+    absOf (run ops a) = ops.foldl specStep (absOf a) := by
+  induction ops generalizing a with
+  | nil => rfl
+  | cons op ops ih =>
+    have ho := hops op List.mem_cons_self
+    have ho' : ∀ k, op.key? = some k → k ∈ H ∨ k = ksKey := fun k hk => Or.inl (ho k hk)
+    simp only [run, List.foldl_cons]
+    rw [← step_refines hs a op ho hK hG]
+    exact ih (fun o h => hops o (List.mem_cons_of_mem _ h)) _ (step_K hs a op ho' hK) (step_G hs a op ho' hG)
+
+theorem init_G (H : List Key) : G H init := by
+  intro g hg
+  have : init.groups = [] := by decide
+  rw [this] at hg; cases hg
+
+theorem absOf_init : absOf init = fun _ => none := by
+  funext q
+  have hf : init.file = [] ++ [(ksKey, .keysNode [ksKey])] := by decide
+  rw [abs_of_us hf]
+  split <;> rfl
+
+/-- **Loading a key returns what was last written under it.** After any history in the regime, starting
+from a new artifact, `load k` returns exactly what the abstract key → data map – computed from the
+operation list alone – binds `k` to, and is refused iff the map does not bind it. -/
+theorem load_last_written {H : List Key} (hs : Sep H) (ops : List Op)
+    (hops : ∀ op ∈ ops, ∀ k, op.key? = some k → k ∈ H) (k : Key) (hk : k ∈ H) :
+    (load (run ops init) k).2 =
+      (match (ops.foldl specStep (fun _ => none)) k with | some n => .data n | none => .rejected) := by
+  have hK := ops_K_partial hs ops (fun o h k hk => Or.inl (hops o h k hk)) init (init_K H)
+  rw [(load_regime hs hk hK).1, run_refines hs ops hops init (init_K H) (init_G H), absOf_init]
+
+/-- the keys an artifact reports are exactly the keys that can be loaded -/
+theorem keys_loadable_iff {H : List Key} (hs : Sep H) {a : Art} {k : Key} (hk : k ∈ H) (hK : K H a) :
+    k ∈ a.keys ↔ ∃ n, (load a k).2 = .data n := by
+  rw [(load_regime hs hk hK).1, ← abs_isSome_iff hs hk hK]
+  cases absOf a k <;> simp
+
+/-- `K` in the words of the property: the persisted key space is the in-memory key list, which is
+`"metadata.keyspace"` followed by the keys of the file's data nodes in insertion order, without
+repetition; the cache only holds what the file holds (a cached copy of the key list itself excepted). -/
+theorem K_agree {H : List Key} (hs : Sep H) {a : Art} (h : K H a) :
+    a.keyspace = some a.keys ∧ a.keys = ksKey :: (fileKeys a).filter (· != ksKey) ∧ a.keys.Nodup ∧
+      ∀ e ∈ a.cache, e.1 ≠ ksKey → e ∈ a.file := by
+  obtain ⟨us, hf, hkeys, hnd, hus, hc⟩ := h
+  have hnot : ksKey ∉ us.map (·.1) := by
+    intro hm
+    obtain ⟨e, he, hek⟩ := List.mem_map.mp hm
+    exact hs.ks (hek ▸ (hus e he).1)
+  refine ⟨?_, ?_, ?_, ?_⟩
+  · simp only [Art.keyspace, hf, lookup_ks hs _ hus]
+  · have : (us.map (·.1)).filter (· != ksKey) = us.map (·.1) := by
+      apply List.filter_eq_self.mpr
+      intro x hx
+      have : x ≠ ksKey := fun e => hnot (e ▸ hx)
+      simpa using this
+    rw [fileKeys, hf, List.map_append, List.filter_append, this, hkeys]
+    simp
+  · rw [hkeys]; exact List.nodup_cons.mpr ⟨hnot, hnd⟩
+  · intro e he hne; rw [hf]; exact List.mem_append_left _ (hc e he hne)
+
+/-- reopening reads back the same keys (and touches neither the file nor the bare groups) -/
+theorem reopen_same_keys {H : List Key} (hs : Sep H) {a : Art} (h : K H a) :
+    step a .reopen = ({ a with cache := [] }, .ok) ∧ (step a .probe) = (a, .ok) := by
+  simp only [step, open_K hs h, and_self]
+
+/-- **The refusals the property names leave everything as it was – in every state**, consistent or not,
+nested keys or not: duplicate write, `None`, malformed key, unserialisable value; remove / replace / load
+of a key the artifact does not report; replace with `None` or an unserialisable value; and every
+write / remove / replace addressed to the bookkeeping key `metadata.keyspace`. -/
+theorem rejected_unchanged (a : Art) (k : Key) :
+    (∀ d, k ∈ a.keys → write a k d = (a, .rejected)) ∧
+    (write a k none = (a, .rejected)) ∧
+    (∀ d, wellFormed k = false → write a k d = (a, .rejected)) ∧
+    (∀ i, write a k (some ⟨.unserJson, i⟩) = (a, .rejected)) ∧
+    (k ∉ a.keys → remove a k = (a, .rejected)) ∧
+    (∀ d, k ∉ a.keys → replace a k d = (a, .rejected)) ∧
+    (replace a k none = (a, .rejected)) ∧
+    (∀ i, replace a k (some ⟨.unserJson, i⟩) = (a, .rejected)) ∧
+    (k ∉ a.keys → load a k = (a, .rejected)) ∧
+    (remove a ksKey = (a, .rejected)) ∧ (∀ d, replace a ksKey d = (a, .rejected)) ∧
+    (∀ d, ksKey ∈ a.keys → write a ksKey d = (a, .rejected)) := by
+  refine ⟨?_, ?_, ?_, ?_, ?_, ?_, ?_, ?_, ?_, remove_ks a, replace_ks a, ?_⟩
+  · intro d h; unfold write; rw [if_pos (List.contains_iff_mem.mpr h)]
+  · unfold write; split <;> rfl
+  · intro d h
+    unfold write
+    split
+    · rfl
+    · cases d with
+      | none => rfl
+      | some d => simp [hdfWrite, h]
+  · intro i
+    unfold write
+    split
+    · rfl
+    · by_cases hw : wellFormed k = true <;> simp [hdfWrite, hw]
+  · intro h
+    have : (!a.keys.contains k) = true := by simpa using h
+    unfold remove; rw [if_pos this]
+  · intro d h
+    have : (!a.keys.contains k) = true := by simpa using h
+    unfold replace; rw [if_pos this]
+  · unfold replace; split <;> rfl
+  · intro i; unfold replace; split <;> simp
+  · intro h
+    have : (!a.keys.contains k) = true := by simpa using h
+    unfold load; rw [if_pos this]
+  · intro d h; unfold write; rw [if_pos (List.contains_iff_mem.mpr h)]
+
+/-! ### filter terms only restrict -/
+
+theorem loadRows_nil (t : Table) : loadRows t [] = t.rows.zipIdx.map (fun e => (e.2, e.1)) := by
+  simp [loadRows, validTerms]
+
+/-- the rows returned under any filter terms are a sub-list (same order, same content) of the rows
+returned without filter terms -/
+theorem filter_subset (t : Table) (terms : List Term) : (loadRows t terms).Sublist (loadRows t []) := by
+  rw [loadRows_nil]
+  exact List.filter_sublist
+
+/-- a term that references a column the stored table does not have is ignored, wherever it stands -/
+theorem absent_terms_ignored (t : Table) (l1 l2 : List Term) (term : Term)
+    (h : term.cols.all t.qcols.contains = false) : loadRows t (l1 ++ term :: l2) = loadRows t (l1 ++ l2) := by
+  simp [loadRows, validTerms, List.filter_append, h]
+
+/-- more terms, fewer rows -/
+theorem filter_monotone (t : Table) (terms more : List Term) :
+    (loadRows t (terms ++ more)).Sublist (loadRows t terms) := by
+  simp only [loadRows, validTerms, List.filter_append, List.all_append]
+  rw [← List.filter_filter]
+  exact List.filter_sublist.filter _
+
+/-- a draw selection only ever drops columns, and without one every column comes back -/
+theorem filter_cols_subset (t : Table) (cf : Option (List String)) :
+    (∀ c ∈ loadCols t cf, c ∈ t.cols) ∧ loadCols t none = t.cols := by
+  refine ⟨?_, rfl⟩
+  intro c hc
+  cases cf with
+  | none => exact hc
+  | some want =>
+    simp only [loadCols] at hc
+    split at hc
+    · exact hc
+    · simpa using (List.mem_filter.mp hc).2
+
+/-- terms never touch what a JSON document or the rows' content is: the row a term keeps is the stored row -/
+theorem filter_rows_are_stored (t : Table) (terms : List Term) :
+    ∀ e ∈ loadRows t terms, t.rows[e.1]? = some e.2 := by
+  intro e he
+  have := (filter_subset t terms).subset he
+  rw [loadRows_nil] at this
+  obtain ⟨x, hx, rfl⟩ := List.mem_map.mp this
+  exact List.mem_zipIdx_iff_getElem?.mp hx
+
+/-! ### the recorded finding (F12) and the limits of atomicity, as witnesses on the model of the code as it is -/
+
+def jsonD (i : Nat) : Option Data := some ⟨.json, i⟩
+def tableD (i : Nat) : Option Data := some ⟨.table, i⟩
+
+/-- F12: writing pandas data under the two-part key `a.b` destroys the node of `a.b.c`; the key is still
+reported (also by a freshly opened artifact) but is gone from the file and cannot be loaded. -/
+theorem nested_write_destroys_child :
+    (["a", "b", "c"] ∈ (run [.write ["a", "b", "c"] (jsonD 1), .write ["a", "b"] (tableD 2)] init).keys ∧
+     ["a", "b", "c"] ∉ fileKeys (run [.write ["a", "b", "c"] (jsonD 1), .write ["a", "b"] (tableD 2)] init) ∧
+     (load (run [.write ["a", "b", "c"] (jsonD 1), .write ["a", "b"] (tableD 2)] init) ["a", "b", "c"]).2 = .rejected ∧
+     (openArtifact (run [.write ["a", "b", "c"] (jsonD 1), .write ["a", "b"] (tableD 2)] init)).map (·.keys) =
+       some [ksKey, ["a", "b", "c"], ["a", "b"]]) := by decide
+
+/-- F12: removing `a.b` removes the whole group, and with it `a.b.c`, which stays reported. -/
+theorem nested_remove_destroys_child :
+    (["a", "b", "c"] ∈ (run [.write ["a", "b"] (tableD 1), .write ["a", "b", "c"] (jsonD 2), .remove ["a", "b"]] init).keys ∧
+     fileKeys (run [.write ["a", "b"] (tableD 1), .write ["a", "b", "c"] (jsonD 2), .remove ["a", "b"]] init) = [ksKey]) := by
+  decide
+
+/-- F12: the remove of such a dangling key raises – after the key list was rewritten. -/
+theorem nested_remove_raises_after_unlisting :
+    (step (run [.write ["a", "b"] (tableD 1), .write ["a", "b", "c"] (jsonD 2), .remove ["a", "b"]] init)
+        (.remove ["a", "b", "c"])).2 = .rejected ∧
+    (step (run [.write ["a", "b"] (tableD 1), .write ["a", "b", "c"] (jsonD 2), .remove ["a", "b"]] init)
+        (.remove ["a", "b", "c"])).1.keys = [ksKey] := by decide
+
+/-- F12: the group left behind by `a.b.c` makes a JSON write of the fresh key `a.b` fail (a pandas
+write would succeed). -/
+theorem leftover_group_refuses_json_write :
+    step (run [.write ["a", "b", "c"] (jsonD 1), .remove ["a", "b", "c"]] init) (.write ["a", "b"] (jsonD 2)) =
+      (run [.write ["a", "b", "c"] (jsonD 1), .remove ["a", "b", "c"]] init, .rejected) ∧
+    (step (run [.write ["a", "b", "c"] (jsonD 1), .remove ["a", "b", "c"]] init) (.write ["a", "b"] (tableD 2))).2 = .ok := by
+  decide
+
+/-- why `Atomic` excludes pandas values the HDF layer refuses from `replace`: the key and its data survive
+(F19, repaired), but the key has moved to the end of the key list. -/
+theorem failed_replace_moves_key_to_end :
+    (step (run [.write ["x", "y"] (jsonD 1), .write ["x", "z"] (jsonD 2)] init)
+        (.replace ["x", "y"] (some ⟨.zeroRow, 3⟩))).2 = .rejected ∧
+    (step (run [.write ["x", "y"] (jsonD 1), .write ["x", "z"] (jsonD 2)] init)
+        (.replace ["x", "y"] (some ⟨.zeroRow, 3⟩))).1.keys = [ksKey, ["x", "z"], ["x", "y"]] ∧
+    (load (step (run [.write ["x", "y"] (jsonD 1), .write ["x", "z"] (jsonD 2)] init)
+        (.replace ["x", "y"] (some ⟨.zeroRow, 3⟩))).1 ["x", "y"]).2 = .data (.blob 1) := by decide
+
+/-- why `Atomic` excludes `badFrame` from `write`: nothing stays at the key's own path (F19, repaired; a
+later write of the key is accepted), but under a three-part key the parent group `put` created stays. -/
+theorem refused_frame_write_leaves_parent_group :
+    step init (.write ["x", "y"] (some ⟨.badFrame, 1⟩)) = (init, .rejected) ∧
+    step init (.write ["q", "r", "s"] (some ⟨.badFrame, 1⟩)) = ({ init with groups := [["q", "r"]] }, .rejected) ∧
+    (step (step init (.write ["q", "r", "s"] (some ⟨.badFrame, 1⟩))).1 (.write ["q", "r", "s"] (jsonD 2))).2 = .ok := by
+  decide
+
+/-! ### non-vacuity: the hypotheses are inhabited -/
+
+/-- a separated family with two- and three-part keys under shared groups, and malformed keys -/
+def exH : List Key := [["x", "y", "z"], ["x", "y", "w"], ["x", "v"], ["m", "n"], ["a"], ["a", "", "b"], [""]]
+
+example : Sep exH := ⟨by decide, by decide⟩
+example : ¬ Sep [["a", "b"], ["a", "b", "c"]] := fun h => by
+  have := h.sep ["a", "b"] (by decide) ["a", "b", "c"] (by decide) (by decide) (by decide) (by decide)
+  exact absurd this (by decide)
+example : K exH init ∧ G exH init := ⟨init_K _, init_G _⟩
+example : (run [.write ["x", "y", "z"] (jsonD 1), .write ["m", "n"] (tableD 2), .load ["m", "n"],
+      .replace ["x", "y", "z"] (tableD 3), .write ["a"] (jsonD 4), .remove ["m", "n"], .reopen] init).keys =
+    [ksKey, ["x", "y", "z"]] := by decide
+example : (load (run [.write ["x", "y", "z"] (jsonD 1), .replace ["x", "y", "z"] (tableD 3)] init) ["x", "y", "z"]).2 =
+    .data (.tbl 3) := by decide
+example : Atomic (.replace ["x", "v"] (jsonD 1)) ∧ ¬ Atomic (.replace ["x", "v"] (some ⟨.zeroRow, 1⟩)) := by
+  simp [Atomic, jsonD]
+example : (step (run [.write ["x", "v"] (jsonD 1)] init) (.remove ksKey)).1 = run [.write ["x", "v"] (jsonD 1)] init := by
+  decide
+example : loadRows { qcols := ["index", "i"], rows := [[0, 1], [1, 2], [2, 3]], cols := ["value"] }
+    [.atom "i" .gt 1, .atom "year" .eq 5, .draws [0]] = [(1, [1, 2]), (2, [2, 3])] := by decide
 
 end Viv.Props.C19
